@@ -299,7 +299,7 @@ def inject_error(rng, w, items):
     defs = [i for i in items if i.role == "def"]
     feature = rng.choice(["dup_type", "dup_type_kind", "dup_comp_def", "dup_comp_ext", "kind_mismatch", "orphan",
                           "dup_dirdef", "builtin_dirdef_twice", "scalar_redef", "builtin_type_redef", "dup_root",
-                          "two_schema_defs", "exec", "orphan_schema_ext", "dup_iface", "orphan_mixed"])
+                          "two_schema_defs", "exec", "orphan_schema_ext", "dup_iface", "orphan_mixed", "orphan_many", "orphan_many"])
     pos = rng.randint(0, len(items))
     if feature in ("dup_type", "dup_type_kind") and defs:
         d = rng.choice(defs)
@@ -349,6 +349,14 @@ def inject_error(rng, w, items):
         for _ in range(rng.randint(1, 2)):
             items.insert(rng.randint(0, len(items)), Item("ext", name, f"extend {KEYWORD[k]} {name}{body}", k))
             body = body.replace("o:", "p:").replace(" O ", " P ").replace("= A", "= B")
+    elif feature == "orphan_many":
+        # several orphan names (their order matters when orphans are adopted), interleaved with everything else;
+        # together with extensions placed before their definitions this exercises removal from the ordered orphan queue
+        names = rng.sample(["OrphA", "OrphB", "OrphC", "OrphD", "OrphE"], rng.randint(3, 5))
+        for nm in names:
+            items.insert(rng.randint(0, len(items)), Item("ext", nm, f"extend type {nm} {{ o: Int }}", "object"))
+        if rng.random() < 0.5:
+            items.insert(rng.randint(0, len(items)), Item("ext", names[0], f"extend type {names[0]} @d {{ p: Int }}", "object"))
     elif feature == "orphan_mixed":
         # orphan extensions of one name with different kinds
         name = "Orphan"
